@@ -10,12 +10,17 @@ import (
 	"crypto/x509/pkix"
 	"encoding/pem"
 	"fmt"
+	"google.golang.org/grpc"
+	"google.golang.org/grpc/codes"
+	"google.golang.org/grpc/credentials"
+	"google.golang.org/grpc/status"
 	"io"
 	"math/big"
 	"net"
 	"os"
 	"path/filepath"
 	"strings"
+	"sync/atomic"
 	"testing"
 	"time"
 
@@ -98,6 +103,7 @@ func newCertKit(t *testing.T, dir string) *certKit {
 	k.creds["selfSigned"] = mkLeaf("peer", "proxy.test", nil, nil, future, both)
 	k.creds["otherCA"] = mkLeaf("peer", "proxy.test", ca2, ca2Key, future, both)
 	k.creds["expired"] = mkLeaf("peer", "proxy.test", ca1, ca1Key, time.Now().Add(-time.Hour), both)
+	k.creds["dialHost"] = mkLeaf("peer", "localhost", ca1, ca1Key, future, both)                                  // certified by the configured CA for the host name a client DIALS, not for the configured server name
 	k.creds["hostTrusted"] = mkLeaf("peer", "proxy.test", ca3, ca3Key, future, both)                              // issued by a CA the host trusts, not by the configured CA
 	k.creds["expiredRecently"] = mkLeaf("peer", "proxy.test", ca1, ca1Key, time.Now().Add(-90*time.Second), both) // inside any "clock skew tolerance"
 	k.creds["wrongUsage.client"] = mkLeaf("peer", "proxy.test", ca1, ca1Key, future, []x509.ExtKeyUsage{x509.ExtKeyUsageServerAuth})
@@ -471,6 +477,46 @@ func TestC19(t *testing.T) {
 			viol(fmt.Sprintf("TCP listener with TLS configured (%s: own certificate=%v, CA file=%s, verification not switched off) serves a peer that speaks plaintext HTTP/2: no TLS, no certificate", c.String(), c.hasCert, c.caFile), op)
 		}
 		pp2.Stop()
+	}
+	// --- the REAL outbound client of a cluster connection (gRPC dial options included), dialling a DNS NAME: the server
+	// certificate is checked against the CONFIGURED server name, not against the name that happens to be dialled
+	for _, cred := range []string{"validChain", "wrongName", "dialHost", "otherCA", "selfSigned", "expired"} {
+		lis, lerr := net.Listen("tcp", "127.0.0.1:0")
+		if lerr != nil {
+			t.Fatal(lerr)
+		}
+		var served atomic.Int64
+		srv := grpc.NewServer(grpc.Creds(credentials.NewTLS(&tls.Config{MinVersion: tls.VersionTLS12, Certificates: []tls.Certificate{*k.creds[cred]}})),
+			grpc.UnknownServiceHandler(func(any, grpc.ServerStream) error {
+				served.Add(1)
+				return status.Error(codes.Unimplemented, "c19 tls backend")
+			}))
+		go func() { _ = srv.Serve(lis) }()
+		_, port, _ := net.SplitHostPort(lis.Addr().String())
+		ccfg := config.ClusterConnConfig{}
+		ccfg.Remote.TcpClient = config.TCPTLSInfo{ConnectionString: "localhost:" + port, TLSConfig: k.config(on)}
+		pp3, err := startProxyPair(t, ccfg)
+		op := fmt.Sprintf("# outbound-client dialling localhost, server presents %s", cred)
+		e.Emit(op, "#")
+		e.Evals++
+		if err != nil {
+			e.Count("outbound_client_not_started")
+			srv.Stop()
+			continue
+		}
+		ctx, cancelCall := context.WithTimeout(context.Background(), 4*time.Second)
+		_ = pp3.FromLocal.Invoke(ctx, adminDescribeMethod, newMsg(methodDesc(adminDescribeMethod).Input()), newMsg(methodDesc(adminDescribeMethod).Output()))
+		cancelCall()
+		got := "refuse"
+		if served.Load() > 0 {
+			got = "admit"
+		}
+		e.Count("outbound_client_" + cred + "_" + got)
+		if (cred == "validChain") != (got == "admit") {
+			viol(fmt.Sprintf("the cluster connection's outbound client (CA verification on, configured server name proxy.test, dialling localhost) answered %q to a server presenting a %s certificate", got, cred), op)
+		}
+		pp3.Stop()
+		srv.Stop()
 	}
 	e.Stats["exhaustive"] = true
 	e.Sample([]string{"srvadmit 1 1 good 0 selfSigned", "cliadmit 0 1 good 0 wrongName", "listener mux 1 1 good 0 otherCA"})
